@@ -5,6 +5,8 @@ package props
 import (
 	"bytes"
 	"fmt"
+	"io"
+	"math"
 	"os"
 	"runtime"
 	"strings"
@@ -21,6 +23,27 @@ import (
 type countHook struct{ n *int64 }
 
 func (h countHook) OnWrite(*zapcore.CheckedEntry, []zapcore.Field) { atomic.AddInt64(h.n, 1) }
+
+// seenHook is a terminal hook that also records which entry it was handed.
+type seenHook struct {
+	n    *int64
+	seen *[]string
+}
+
+var c08Audit = zap.New(zapcore.NewCore(zapcore.NewJSONEncoder(zapcore.EncoderConfig{MessageKey: "m"}), zapcore.AddSync(io.Discard), zapcore.DebugLevel))
+
+func (h seenHook) OnWrite(ce *zapcore.CheckedEntry, fs []zapcore.Field) {
+	atomic.AddInt64(h.n, 1)
+	// a hook may itself log (an audit line) before it looks at its entry
+	c08Audit.Info("terminal hook invoked", zap.Int("fields", len(fs)))
+	*h.seen = append(*h.seen, fmt.Sprintf("%v|%s|%d", ce.Level, ce.Message, len(fs)))
+}
+
+// failSink fails every Write (and Sync).
+type failSink struct{}
+
+func (failSink) Write(p []byte) (int, error) { return 0, fmt.Errorf("sink down") }
+func (failSink) Sync() error                 { return fmt.Errorf("sink down") }
 
 //go:noinline
 func deepCall(n int, f func()) {
@@ -44,6 +67,8 @@ type c08Probe struct {
 	ehooks  *int64
 	level   zapcore.Level
 	depth   int
+	late    []*Spec // context added by a With issued as part of every probe call
+	seen    []string
 }
 
 func newC08Probe(t *rapid.T) *c08Probe {
@@ -58,7 +83,10 @@ func newC08Probe(t *rapid.T) *c08Probe {
 	} else {
 		enc = zapcore.NewJSONEncoder(p.c.cs.cfg)
 	}
-	opts := []zap.Option{zap.WithClock(fixedClock{p.c.ent.Time}), zap.WithFatalHook(countHook{p.hooks}), zap.WithPanicHook(countHook{p.hooks}),
+	if rapid.Bool().Draw(t, "lateWith") {
+		p.late = genSpecs(t, 1, 2, specOpts{faults: true, viaAny: true}, "lateCtx")
+	}
+	opts := []zap.Option{zap.WithClock(fixedClock{p.c.ent.Time}), zap.WithFatalHook(seenHook{p.hooks, &p.seen}), zap.WithPanicHook(seenHook{p.hooks, &p.seen}),
 		zap.Hooks(func(zapcore.Entry) error { atomic.AddInt64(p.ehooks, 1); return nil })}
 	if p.caller {
 		opts = append(opts, zap.AddCaller(), zap.AddStacktrace(zapcore.WarnLevel))
@@ -84,11 +112,18 @@ type c08Obs struct {
 // run issues P. Always called from the single line in (*c08Probe).observe so
 // that caller and stack annotations are legitimately identical.
 func (p *c08Probe) run() {
-	deepCall(p.depth, func() { p.lg.Log(p.level, p.c.ent.Message, fieldsOf(p.c.site)...) })
+	deepCall(p.depth, func() {
+		lg := p.lg
+		if p.late != nil {
+			lg = lg.With(fieldsOf(p.late)...) // a derivation made after the history (holds pooled objects while P is encoded)
+		}
+		lg.Log(p.level, p.c.ent.Message, fieldsOf(p.c.site)...)
+	})
 }
 
 func (p *c08Probe) observe() c08Obs {
 	w0, h0, e0 := len(p.sink.writes), atomic.LoadInt64(p.hooks), atomic.LoadInt64(p.ehooks)
+	p.seen = nil
 	p.run()
 	return c08Obs{string(bytes.Join(p.sink.writes[w0:], nil)), len(p.sink.writes) - w0, atomic.LoadInt64(p.hooks) - h0, atomic.LoadInt64(p.ehooks) - e0}
 }
@@ -112,7 +147,7 @@ func genC08History(t *rapid.T, maxOps int, discard *memSink) *c08History {
 	), zap.AddCaller(), zap.AddStacktrace(zapcore.DebugLevel), zap.WithFatalHook(countHook{new(int64)}), zap.WithPanicHook(countHook{new(int64)}))
 	so := specOpts{faults: true, viaAny: true}
 	for i := 0; i < n; i++ {
-		kind := rapid.SampledFrom([]string{"log", "log", "bigopen", "gc", "poison", "deepstack", "errors", "clone", "terminal", "with"}).Draw(t, "historyOp")
+		kind := rapid.SampledFrom([]string{"log", "log", "bigopen", "gc", "poison", "deepstack", "errors", "clone", "terminal", "with", "sinkfail", "encfail"}).Draw(t, "historyOp")
 		h.names = append(h.names, kind)
 		switch kind {
 		case "log":
@@ -181,6 +216,31 @@ func genC08History(t *rapid.T, maxOps int, discard *memSink) *c08History {
 				}
 			})
 			h.pools["json encoder"], h.pools["slice encoder"] = true, true
+		case "sinkfail":
+			// an entry whose sink write fails (reported to a discarded ErrorOutput)
+			cs3 := genCfgSpec(t, cfgOpts{})
+			fs := genSpecs(t, 1, 3, so, "hFields")
+			lvl := zapcore.Level(rapid.IntRange(-1, 5).Draw(t, "hLevel"))
+			console := rapid.Bool().Draw(t, "hConsole")
+			h.ops = append(h.ops, func() {
+				var e zapcore.Encoder
+				if console {
+					e = zapcore.NewConsoleEncoder(cs3.cfg)
+				} else {
+					e = zapcore.NewJSONEncoder(cs3.cfg)
+				}
+				bad := zap.New(zapcore.NewTee(zapcore.NewCore(e, failSink{}, zapcore.DebugLevel), zapcore.NewCore(e, discard, zapcore.DebugLevel)),
+					zap.ErrorOutput(discard), zap.WithFatalHook(countHook{new(int64)}), zap.WithPanicHook(countHook{new(int64)}))
+				bad.Log(lvl, "write fails", fieldsOf(fs)...)
+				_ = bad.Sync()
+			})
+			h.pools["buffer"], h.pools["checked entry"], h.pools["json encoder"] = true, true, true
+		case "encfail":
+			// reflected values that cannot be encoded, as context and at the call site
+			h.ops = append(h.ops, func() {
+				other.With(zap.Reflect("ctxbad", map[string]float64{"x": math.NaN()})).Info("unencodable", zap.Reflect("bad", make(chan int)), zap.Reflect("ok", map[string]int{"a": 1}))
+			})
+			h.pools["buffer"], h.pools["json encoder"] = true, true
 		case "terminal":
 			lvl := zapcore.Level(rapid.IntRange(3, 5).Draw(t, "termLevel"))
 			h.ops = append(h.ops, func() { other.Log(lvl, "terminal with returning hook") })
@@ -213,6 +273,16 @@ func c08Compare(t *rapid.T, p *c08Probe, phase string, base, got c08Obs, h *c08H
 	}
 }
 
+// c08HookSaw: the terminal hook of P (if P is at a terminal level) must have
+// been handed P's own entry.
+func c08HookSaw(t *rapid.T, p *c08Probe) {
+	for _, s := range p.seen {
+		if want := fmt.Sprintf("%v|%s|%d", p.level, p.c.ent.Message, len(p.c.site)); s != want {
+			t.Fatalf("the terminal hook was handed entry %q, the logged entry is %q", clipS(s), clipS(want))
+		}
+	}
+}
+
 func propC08Sequential(t *rapid.T) {
 	old := runtime.GOMAXPROCS(1) // a freed pooled object is the next one handed out
 	defer runtime.GOMAXPROCS(old)
@@ -237,9 +307,11 @@ func propC08Sequential(t *rapid.T) {
 			if base.writes != 1 {
 				t.Fatalf("probe produced %d writes", base.writes)
 			}
+			c08HookSaw(t, p)
 			continue
 		}
 		c08Compare(t, p, name, base, got, h)
+		c08HookSaw(t, p)
 	}
 	if bytes.Contains(discard.all(), []byte("POISON")) {
 		t.Fatalf("poisoned pool buffer content is visible in another logger's output")
@@ -262,6 +334,9 @@ func propC08Sequential(t *rapid.T) {
 	}
 	if p.caller {
 		labels = append(labels, "probe with caller+stack")
+	}
+	if p.late != nil {
+		labels = append(labels, "probe derives With after the history")
 	}
 	hs := append([]string(nil), h.names...)
 	sortStrings(hs)
